@@ -9,6 +9,7 @@ use syn::{ImplItem, Item};
 pub const REQUIRED: &[&str] = &[
     "Rect.horizontal_axis_sum", "Rect.vertical_axis_sum", "Rect.sum_axes", "Rect.ZERO", "Size.ZERO", "Size.f32_max", "Size.f32_min",
     "Size.NONE", "Size.maybe_apply_aspect_ratio", "Size.unwrap_or", "Size.or", "Size.both_axis_defined", "Point.ZERO", "Point.NONE",
+    "Rect.add", "Size.add", "Size.map", "Size.zip_map", "Point.map",
     "Line.FALSE", "f32.TaffyZero_ZERO", "Size.TaffyZero_ZERO", "Rect.TaffyZero_ZERO", "Point.TaffyZero_ZERO", "Size.zero", "Rect.zero", "Point.zero",
 ];
 
@@ -41,6 +42,62 @@ pub fn extract(repo: &str, w: &mut World) -> Result<String, String> {
             ("Point<f32>", 0) => impl_items(&mut out, w, info, &env, "Point", Some(Ty::adt("Point", vec![f.clone()])), &g(&[]), "Point.", REQUIRED, &[])?,
             ("Point<Option<f32>>", 0) => impl_items(&mut out, w, info, &env, "Point", Some(Ty::adt("Point", vec![of.clone()])), &g(&[]), "Point.", REQUIRED, &[])?,
             _ => {}
+        }
+    }
+    // operator traits: `impl<U, T: Add<U>> Add<Rect<U>> for Rect<T>` (and `Size`), instantiated at f32 — `a + b` on these types is
+    // translated as a call of the function (`expr.rs`, `binary`)
+    out.comment("`impl Add<Rect<U>> for Rect<T>` / `impl Add<Size<U>> for Size<T>`, instantiated at T = U = f32 (`a + b` on rects / sizes)");
+    out.text.push('\n');
+    for info in &v {
+        let cont = match (info.self_ty.as_str(), info.trait_.as_deref()) {
+            ("Rect<T>", Some("Add<Rect<U>>")) => "Rect",
+            ("Size<T>", Some("Add<Size<U>>")) => "Size",
+            _ => continue,
+        };
+        let st = Ty::adt(cont, vec![f.clone()]);
+        for ii in info.items {
+            match ii {
+                ImplItem::Type(t) => {
+                    // `type Output = Rect<T::Output>;` / `Size<<T as Add<U>>::Output>`: at f32 + f32 the output is f32
+                    let got = norm(&t.ty);
+                    if t.ident != "Output" || (got != format!("{cont}<T::Output>") && got != format!("{cont}<<TasAdd<U>>::Output>")) {
+                        return Err(format!("`impl Add for {cont}`: associated type `{}` is `{got}`", t.ident));
+                    }
+                }
+                ImplItem::Fn(ff) if ff.sig.ident == "add" => {
+                    let want = format!("fnadd(self,rhs:{cont}<U>)->Self::Output");
+                    if norm(&ff.sig) != want {
+                        return Err(format!("`impl Add for {cont}`: signature is `{}`, expected `{want}`", norm(&ff.sig)));
+                    }
+                    let sig: syn::Signature = syn::parse_str(&format!("fn add(self, rhs: {cont}<f32>) -> {cont}<f32>")).map_err(|e| e.to_string())?;
+                    out.function(w, Plan { head: cont.to_string(), rust_name: "add".into(), lean_rel: format!("{cont}.add"), self_ty: Some(st.clone()), generics: g(&["T", "U"]), sig: &sig, block: &ff.block, required: true, trunc_sub: false, ext: Default::default() });
+                }
+                _ => {}
+            }
+        }
+    }
+    // the higher-order helpers of the generic `impl<T>` blocks, kept polymorphic (`f: F` with `F: Fn(T) -> R` ↦ `(f : β → R)`)
+    out.comment("`Size::map`, `Size::zip_map`, `Point::map` (generic `impl<T>`, polymorphic; the closure is a Lean function)");
+    out.text.push('\n');
+    let beta = Ty::Var("β".into());
+    let gb: HashMap<String, Ty> = [("T".to_string(), beta.clone())].into_iter().collect();
+    for info in &v {
+        if info.trait_.is_some() || info.generics.len() != 1 {
+            continue;
+        }
+        let (cont, names): (&str, &[&str]) = match info.self_ty.as_str() {
+            "Size<T>" => ("Size", &["map", "zip_map"]),
+            "Point<T>" => ("Point", &["map"]),
+            _ => continue,
+        };
+        for ii in info.items {
+            if let ImplItem::Fn(ff) = ii {
+                let name = ff.sig.ident.to_string();
+                if names.contains(&name.as_str()) && env.enabled(&ff.attrs)? {
+                    let lean_rel = format!("{cont}.{name}");
+                    out.function(w, Plan { head: cont.to_string(), rust_name: name, lean_rel, self_ty: Some(Ty::adt(cont, vec![beta.clone()])), generics: gb.clone(), sig: &ff.sig, block: &ff.block, required: true, trunc_sub: false, ext: crate::emit::PlanExt { type_vars: true, ..Default::default() } });
+                }
+            }
         }
     }
     // style_helpers.rs: `TaffyZero` at f32, and the `zero()` constructors
@@ -85,7 +142,7 @@ pub fn extract(repo: &str, w: &mut World) -> Result<String, String> {
                     for ii in info.items {
                         if let ImplItem::Fn(ff) = ii {
                             if ff.sig.ident == "zero" {
-                                out.function(w, Plan { head: head.to_string(), rust_name: "zero".into(), lean_rel: format!("{head}.zero"), self_ty: Some(st.clone()), generics: g(&["T"]), sig: &ff.sig, block: &ff.block, required: true, trunc_sub: false });
+                                out.function(w, Plan { head: head.to_string(), rust_name: "zero".into(), lean_rel: format!("{head}.zero"), self_ty: Some(st.clone()), generics: g(&["T"]), sig: &ff.sig, block: &ff.block, required: true, trunc_sub: false, ext: Default::default() });
                             }
                         }
                     }
